@@ -195,6 +195,30 @@ func Generate(t *rapid.T, cfg Config) *Graph {
 	return gr
 }
 
+// starTarget reports whether some module has an `export *` edge to module i.
+func (g *gen) starTarget(i int) bool {
+	for _, es := range g.edges {
+		for _, e := range es {
+			if e.To == i && e.Kind == ExportStar {
+				return true
+			}
+		}
+	}
+	return false
+}
+
+func (g *gen) inDegree(i int) int {
+	n := 0
+	for _, es := range g.edges {
+		for _, e := range es {
+			if e.To == i {
+				n++
+			}
+		}
+	}
+	return n
+}
+
 func (g *gen) addEdge(from, to int) {
 	fk, tk := g.kinds[from], g.kinds[to]
 	var kind string
@@ -304,12 +328,22 @@ func (g *gen) body(i int) Module {
 		w(`exports.a%d = p(%d, "A%d");`, i, g.id(), i)
 		w(`exports.f%d = function () { return "F%d" + (this == null || this === globalThis ? "" : ":recv"); };`, i, i)
 		w(`exports.c%d = %d;`, i, i*10)
-		if g.chance(25, "esmodule-flag") {
+		// `__esModule` is a name like any other for `export *`: two starred CommonJS modules that both set it
+		// make it ambiguous natively, which is the province of C02's bounded-exhaustive star family (and of
+		// its classified known deviations). Here the flag is only given to modules no `export *` points at.
+		if flag := g.chance(25, "esmodule-flag"); flag && g.starTarget(i) {
+			g.labels["esmodule-flag-suppressed-on-star-target"] = true
+		} else if flag {
 			w(`exports.__esModule = true;`)
 			w(`exports.default = "cjs-default-%d";`, i)
 			g.labels["cjs-__esModule"] = true
 		}
-		if g.cfg.AllowThrow && i != 0 && g.chance(8, "throw") {
+		// a CommonJS module that throws is evaluated again by the bundle when a second importer asks for it
+		// (known finding C02-throwing-cjs-reexecuted; Node's own behaviour there is a loader quirk), so a
+		// throwing CommonJS module has a single importer by construction
+		if thr := g.cfg.AllowThrow && i != 0 && g.chance(8, "throw"); thr && g.inDegree(i) > 1 {
+			g.labels["cjs-throw-suppressed-multiple-importers"] = true
+		} else if thr {
 			w(`if (p(%d, true)) throw new TypeError("boom %d");`, g.id(), i)
 			g.labels["top-level-throw"] = true
 		}
